@@ -227,6 +227,25 @@ class RecordHistory(Engine):
         ops: List[Dict[str, Any]] = []
         counter = {"g": 0, "p": 0, "s": 0}
         names: List[str] = []
+        if circular and length >= 40 and rng.random() < 0.25:
+            # a chain of areas around the origin: one crossing it, others overlapping its two arms
+            # (possibly several at the end of the record), and some unrelated ones
+            upper = rng.randint(1, length // 3)
+            lower = rng.randint(1, length // 3)
+            chain = [[[length - upper, length], [0, lower]]]
+            for _ in range(rng.randint(1, 3)):
+                if rng.random() < 0.5:     # overlaps the post-origin arm, reaching far into the record
+                    start = rng.randint(0, max(0, lower - 1))
+                    chain.append([[start, min(length, start + rng.randint(2, max(2, length - lower)))]])
+                else:                      # overlaps the pre-origin arm
+                    end = rng.randint(length - upper + 1, length)
+                    chain.append([[max(0, end - rng.randint(2, max(2, length // 2))), end]])
+            for _ in range(rng.randint(0, 2)):
+                chain.append(simple(2, 12))
+            rng.shuffle(chain)
+            for loc in chain:
+                counter["s"] += 1
+                ops.append({"op": "add_sub", "id": f"s{counter['s']}", "loc": loc})
         for _ in range(n_ops):
             kind = weighted(rng, table)
             if kind == "add_gene":
